@@ -1,10 +1,16 @@
 import XrlCrystals.Hand.Caller
+import XrlCrystals.Hand.Reader
 import XrlCrystals.Spec.Dict
 /-!
 # `c14-model`: runs histories through the hand model (`model`) or the specification (`spec`)
 
 usage: c14-model (model|spec) <bcap> <history-file>...
-Prints, per history, the same lines as `harness/c14drv.c` (see there for the syntax).  Doubles travel as bit
+       c14-model parse <crystal-file>...
+Prints, per history, the same lines as `harness/c14drv.c` (see there for the syntax).
+In `model` mode the content of a crystal file is what the character-level model of the reading loop
+(`Hand/Reader.lean`) makes of the BYTES of `f<k>.dat` next to the history file (the tokens that follow on the `read`
+line are the generator's prediction and are used by the `spec` mode only).  `parse` prints that reading of each
+file as such tokens.  Doubles travel as bit
 patterns (`UInt64`); the volume parameter is the formula of `Crystal_UnitCellVolume`
 (crystal_diffraction.c:445-447) evaluated with the same libm.
 -/
@@ -42,6 +48,73 @@ def crystalStr (c : Crystal D) : String :=
   let h := [c.cell.a, c.cell.b, c.cell.c, c.cell.alpha, c.cell.beta, c.cell.gamma].foldl fnv h0
   let h := c.atoms.foldl (fun h a => [Int64.toUInt64 (Int64.ofInt a.Z), a.fraction, a.x, a.y, a.z].foldl fnv h) h
   s!"{c.name} n={c.atoms.length} h={hex16 h} v=x{hex16 c.volume}"
+
+/-! ### exact decimals to `double` (what `strtod` does: correctly rounded, ties to even) -/
+
+def decToBits (d : Dec) : D :=
+  let sign : UInt64 := if d.neg then 0x8000000000000000 else 0
+  if d.m == 0 then sign
+  else
+    let nd : Int := ((toString d.m).length : Nat)
+    let mag : Int := nd + d.e
+    if mag > 320 then sign ||| 0x7FF0000000000000
+    else if mag < -340 then sign
+    else
+      let N : Nat := if d.e ≥ 0 then d.m * 10 ^ d.e.toNat else d.m
+      let Dn : Nat := if d.e ≥ 0 then 1 else 10 ^ (-d.e).toNat
+      let e0 : Int := (N.log2 : Int) - (Dn.log2 : Int)
+      let ge (e : Int) : Bool := if e ≥ 0 then decide (N ≥ Dn * 2 ^ e.toNat) else decide (N * 2 ^ (-e).toNat ≥ Dn)
+      let e : Int := if ge (e0 + 1) then e0 + 1 else if ge e0 then e0 else e0 - 1
+      let shift : Int := if e ≥ -1022 then 52 - e else 1074
+      let num : Nat := if shift ≥ 0 then N * 2 ^ shift.toNat else N
+      let den : Nat := if shift ≥ 0 then Dn else Dn * 2 ^ (-shift).toNat
+      let q0 := num / den
+      let r := num % den
+      let q := if 2 * r > den || (2 * r == den && q0 % 2 == 1) then q0 + 1 else q0
+      if e ≥ -1022 then
+        let e' : Int := if q ≥ 2 ^ 53 then e + 1 else e
+        let q' : Nat := if q ≥ 2 ^ 53 then q / 2 else q
+        if e' > 1023 then sign ||| 0x7FF0000000000000
+        else sign ||| (UInt64.ofNat ((e' + 1023).toNat) <<< 52) ||| UInt64.ofNat (q' - 2 ^ 52)
+      else sign ||| UInt64.ofNat q
+
+def cellToD (c : Cell Dec) : Cell D :=
+  ⟨decToBits c.a, decToBits c.b, decToBits c.c, decToBits c.alpha, decToBits c.beta, decToBits c.gamma⟩
+
+def crystalToD (c : Crystal Dec) : Crystal D :=
+  ⟨c.name, cellToD c.cell, decToBits c.volume, c.atoms.map (fun a => ⟨a.Z, decToBits a.fraction, decToBits a.x, decToBits a.y, decToBits a.z⟩)⟩
+
+def parsedToD (p : Parsed Dec) : Parsed D := ⟨p.good.map crystalToD, p.bad⟩
+
+/-- the bytes of a file as characters 0..255 -/
+def readBytes (path : System.FilePath) : IO (Option (List Char)) := do
+  try
+    let b ← IO.FS.readBinFile path
+    let mut l : List Char := []
+    let mut i := b.size
+    while i > 0 do
+      i := i - 1
+      l := Char.ofNat (b.get! i).toNat :: l
+    return some l
+  catch _ => return none
+
+/-- a parsed file in the token syntax of the `read` line -/
+def crystalTokens (c : Crystal D) : String :=
+  let cell := [c.cell.a, c.cell.b, c.cell.c, c.cell.alpha, c.cell.beta, c.cell.gamma, c.volume].map (fun v => "x" ++ hex16 v)
+  let atoms := c.atoms.map (fun a => s!"{a.Z} x{hex16 a.fraction} x{hex16 a.x} x{hex16 a.y} x{hex16 a.z}")
+  " ".intercalate ([c.name] ++ cell ++ [toString c.atoms.length] ++ atoms)
+
+def parsedTokens (p : Parsed D) : String :=
+  let g := p.good.map (fun c => "G " ++ crystalTokens c)
+  let b := match p.bad with
+    | none => []
+    | some .sLine => ["E S"]
+    | some (.noUcell n) => [s!"E U0 {n}"]
+    | some (.multiUcell n) => [s!"E U2 {n}"]
+    | some (.badUcell n) => [s!"E UM {n}"]
+    | some (.eof n) => [s!"E EOF {n}"]
+    | some (.atomLine n l k) => [s!"E AT {n} {l} {k}"]
+  " ".intercalate (g ++ b)
 
 /-! ### parsing the history syntax -/
 
@@ -208,12 +281,24 @@ def observeSpec (s : AState D) (b0 : Nat) (pool : List String) : List String :=
 
 /-! ### main loop -/
 
-def runHistory (mode : String) (bcap : Nat) (path : String) : IO Unit := do
+def parseBuiltinFile (path : String) : IO (List (Crystal D)) := do
+  let txt ← IO.FS.readFile path
+  let mut out : List (Crystal D) := []
+  for l in txt.splitOn "\n" do
+    match (l.splitOn " ").filter (· ≠ "") with
+    | "builtin" :: cs =>
+      match parseCrystal cs with
+      | some (c, _) => out := out ++ [c]
+      | none => pure ()
+    | _ => pure ()
+  pure out
+
+def runHistory (cache : IO.Ref (Option (String × List (Crystal D)))) (mode : String) (bcap : Nat) (path : String) : IO Unit := do
   let txt ← IO.FS.readFile path
   let lines := (txt.splitOn "\n").map (fun l => (l.splitOn " ").filter (· ≠ ""))
   let mut pool : List String := []
   let mut builtin : List (Crystal D) := []
-  let mut ops : List (List String × Op D) := []
+  let mut ops : List (List String × Option (Op D) × String) := []
   for ts in lines do
     match ts with
     | [] => pure ()
@@ -222,10 +307,35 @@ def runHistory (mode : String) (bcap : Nat) (path : String) : IO Unit := do
       match parseCrystal cs with
       | some (c, _) => builtin := builtin ++ [c]
       | none => pure ()
+    | ["builtinfile", bp] =>
+      -- the initial state of the built-in collection, shared by all histories of a run: parsed once per process
+      match ← cache.get with
+      | some (p, b) =>
+        if p == bp then builtin := b
+        else
+          let b ← parseBuiltinFile bp
+          cache.set (some (bp, b)); builtin := b
+      | none =>
+        let b ← parseBuiltinFile bp
+        cache.set (some (bp, b)); builtin := b
     | t :: _ =>
       if t.startsWith "#" then pure ()
       else match parseOp ts with
-        | some op => ops := ops ++ [(ts, op)]
+        | some op =>
+          -- model mode: the content of a crystal file is what the reader model makes of its bytes
+          match mode, ts with
+          | "model", "read" :: a :: k :: _ =>
+            if k == "NULLNAME" || k == "NOFILE" then ops := ops ++ [(ts, some op, "")]
+            else
+              let dir := (System.FilePath.mk path).parent.getD (System.FilePath.mk ".")
+              match ← readBytes (dir / s!"f{k}.dat") with
+              | none => ops := ops ++ [(ts, some (.read (parseARef a) .cannotOpen), "")]
+              | some text =>
+                match Reader.readText text with
+                | .parsed p => ops := ops ++ [(ts, some (.read (parseARef a) (.content (parsedToD p))), "")]
+                | .ub u => ops := ops ++ [(ts, none, "ub " ++ ubStr u)]
+                | .unsupported => ops := ops ++ [(ts, none, "unsupported")]
+          | _, _ => ops := ops ++ [(ts, some op, "")]
         | none => IO.println s!"bad-op {ts}"
   let out ← IO.getStdout
   if mode == "model" then
@@ -233,7 +343,10 @@ def runHistory (mode : String) (bcap : Nat) (path : String) : IO Unit := do
     let base := σ.mem.live
     let mut fl : Flags := {}
     let mut k := 0
-    for (ts, op) in ops do
+    for (ts, op?, why) in ops do
+      let some op := op? | do
+        out.putStrLn s!"op {k} {opName ts} {why}"
+        return
       match cstep volF σ op with
       | .error u =>
         out.putStrLn s!"op {k} {opName ts} ub {ubStr u}"
@@ -253,7 +366,8 @@ def runHistory (mode : String) (bcap : Nat) (path : String) : IO Unit := do
     let mut s : AState D := initAbs builtin
     let b0 := builtin.length
     let mut k := 0
-    for (ts, op) in ops do
+    for (ts, op?, _) in ops do
+      let some op := op? | return
       match astep volF bcap s op with
       | none =>
         out.putStrLn s!"op {k} {opName ts} illegal"
@@ -267,10 +381,22 @@ def runHistory (mode : String) (bcap : Nat) (path : String) : IO Unit := do
 
 def main (args : List String) : IO UInt32 := do
   match args with
+  | "parse" :: files =>
+    for f in files do
+      match ← readBytes f with
+      | none => IO.println s!"file {f} NOFILE"
+      | some text =>
+        match Reader.readText text with
+        | .parsed p => IO.println s!"file {f} P {parsedTokens (parsedToD p)}"
+        | .ub u => IO.println s!"file {f} UB {ubStr u}"
+        | .unsupported => IO.println s!"file {f} UNSUPPORTED"
+    (← IO.getStdout).flush
+    pure 0
   | mode :: bcap :: files =>
+    let cache ← IO.mkRef (none : Option (String × List (Crystal D)))
     for f in files do
       IO.println s!"history {f}"
-      runHistory mode bcap.toNat! f
+      runHistory cache mode bcap.toNat! f
     (← IO.getStdout).flush
     pure 0
   | _ =>
